@@ -1,6 +1,38 @@
--- shard 13 of the closeness / tick-gap sweep (C06 (c), (e)): |tick| in [425984, 458752)
+-- shard 13 of the closeness / tick-gap sweep (C06 (c), (e)): |tick| in [425984, 458752), 16 blocks of 2^11
 import Proofs.Lemmas.ClosePred
 namespace Demeter.TickClose
 set_option maxRecDepth 100000 in
-theorem close_shard_13 : chkN closeSweepPred 425984 shardBits = true := by decide +kernel
+theorem close_blk_425984 : chkN closeSweepPred 425984 11 = true := by decide +kernel
+set_option maxRecDepth 100000 in
+theorem close_blk_428032 : chkN closeSweepPred 428032 11 = true := by decide +kernel
+set_option maxRecDepth 100000 in
+theorem close_blk_430080 : chkN closeSweepPred 430080 11 = true := by decide +kernel
+set_option maxRecDepth 100000 in
+theorem close_blk_432128 : chkN closeSweepPred 432128 11 = true := by decide +kernel
+set_option maxRecDepth 100000 in
+theorem close_blk_434176 : chkN closeSweepPred 434176 11 = true := by decide +kernel
+set_option maxRecDepth 100000 in
+theorem close_blk_436224 : chkN closeSweepPred 436224 11 = true := by decide +kernel
+set_option maxRecDepth 100000 in
+theorem close_blk_438272 : chkN closeSweepPred 438272 11 = true := by decide +kernel
+set_option maxRecDepth 100000 in
+theorem close_blk_440320 : chkN closeSweepPred 440320 11 = true := by decide +kernel
+set_option maxRecDepth 100000 in
+theorem close_blk_442368 : chkN closeSweepPred 442368 11 = true := by decide +kernel
+set_option maxRecDepth 100000 in
+theorem close_blk_444416 : chkN closeSweepPred 444416 11 = true := by decide +kernel
+set_option maxRecDepth 100000 in
+theorem close_blk_446464 : chkN closeSweepPred 446464 11 = true := by decide +kernel
+set_option maxRecDepth 100000 in
+theorem close_blk_448512 : chkN closeSweepPred 448512 11 = true := by decide +kernel
+set_option maxRecDepth 100000 in
+theorem close_blk_450560 : chkN closeSweepPred 450560 11 = true := by decide +kernel
+set_option maxRecDepth 100000 in
+theorem close_blk_452608 : chkN closeSweepPred 452608 11 = true := by decide +kernel
+set_option maxRecDepth 100000 in
+theorem close_blk_454656 : chkN closeSweepPred 454656 11 = true := by decide +kernel
+set_option maxRecDepth 100000 in
+theorem close_blk_456704 : chkN closeSweepPred 456704 11 = true := by decide +kernel
+theorem close_shard_13 : chkN closeSweepPred 425984 shardBits = true :=
+  (chkN_join _ 425984 14 (chkN_join _ 425984 13 (chkN_join _ 425984 12 (chkN_join _ 425984 11 close_blk_425984 close_blk_428032) (chkN_join _ 430080 11 close_blk_430080 close_blk_432128)) (chkN_join _ 434176 12 (chkN_join _ 434176 11 close_blk_434176 close_blk_436224) (chkN_join _ 438272 11 close_blk_438272 close_blk_440320))) (chkN_join _ 442368 13 (chkN_join _ 442368 12 (chkN_join _ 442368 11 close_blk_442368 close_blk_444416) (chkN_join _ 446464 11 close_blk_446464 close_blk_448512)) (chkN_join _ 450560 12 (chkN_join _ 450560 11 close_blk_450560 close_blk_452608) (chkN_join _ 454656 11 close_blk_454656 close_blk_456704))))
 end Demeter.TickClose
